@@ -113,19 +113,30 @@ def _mid_build_plant(eng, w, mon, P, si):
     def probe(which, b, where):
         if which == 'impl':
             st['n'] += 1
-            if st['where'] is not None or st['n'] > P.get('plant_events', 8) or p in mon.managed:
+            if st['where'] is not None or st['n'] > P.get('plant_events', 8):
                 return
+            as_dir = bool(P.get('plant_dirs'))
+            if p in mon.managed and not as_dir:
+                return                          # a file at a target path may legitimately be overwritten
             if not w.fs.is_kind(posixpath.dirname(p), DIR) or not w.fs.is_kind(p, ABSENT):
                 return
             if eng.choose('plant-here', 2) == 0:
                 return
             st['where'] = where
-            w.fs.add_file(p, cid, mt)
+            st['dir'] = as_dir
+            if st['dir']:
+                w.fs.add_dir(p)             # an empty foreign directory (a directory is never the library's to remove,
+                                            # not even at a target path)
+            else:
+                w.fs.add_file(p, cid, mt)
             mon.pre[p] = w.fs.snapshot(w.root)[p]
             eng.path_info['planted'] = [rel, where]
             eng.witness('planted-during-build')
         elif where == st['where'] and w.ref.is_kind(posixpath.dirname(p), DIR) and w.ref.is_kind(p, ABSENT):
-            w.ref.add_file(p, cid, mt)
+            if st.get('dir'):
+                w.ref.add_dir(p)
+            else:
+                w.ref.add_file(p, cid, mt)
     return probe
 
 
